@@ -214,6 +214,28 @@ func c12(c *core.Ctx) {
 		c.EndRule()
 	}
 
+	// ---------------------------------------------------------------- R8
+	if c.Rule("R8", "the server type serves what it registered, under the configured base path: the base-path option stores its own parameter unchanged into the field the registrar joins paths with; a default is set before options are applied; options are applied once each over the whole list; ServeHTTP hands every request, untouched, to the mux the registrar registered on", 5) {
+		handlers := map[*types.TypeName]bool{}
+		for _, nt := range p.Implementers(p.ExtType("net/http", "Handler")) {
+			if pkgSuffixOf(nt) == "httpgrpc" && declaredMethod(p, nt, "RegisterService") != nil {
+				handlers[nt.Obj()] = true
+			}
+		}
+		configPlumbing(c, "httpgrpc", func(st *types.Named, f *types.Var) bool {
+			return handlers[st.Obj()] && core.TypeStr(f.Type()) == "string"
+		})
+		optionFanOut(c, "httpgrpc")
+		optionApplySteps(c, "httpgrpc")
+		for _, nt := range p.Implementers(p.ExtType("net/http", "Handler")) {
+			if !handlers[nt.Obj()] {
+				continue
+			}
+			serveDelegates(c, nt)
+		}
+		c.EndRule()
+	}
+
 	// ---------------------------------------------------------------- R6 (shared)
 	// over HTTP the content-type gate is what keeps a unary call from a streaming handler and vice versa ("a unary
 	// name used for a stream fails with a status error without running any handler"): the codec tables of C11/R3
